@@ -51,7 +51,7 @@ type Op struct {
 	M     int  `json:"m,omitempty"`            // pick: method index into Methods
 	Key   int  `json:"key,omitempty"`          // pick: request key index into Keys
 	KeyOf int  `json:"keyof,omitempty"`        // pick: !=0: use a key bound to the channel of the most recent outstanding call, if there is one
-	Msg   int  `json:"msg,omitempty"`          // pick: 0 normal, 1 nil message, 2 empty list / empty key, 3 nil pointer message, 4 non-struct message, 5 struct with a nil embedded message pointer
+	Msg   int  `json:"msg,omitempty"`          // pick: 0 normal, 1 nil message, 2 empty list / empty key, 3 nil pointer message, 4 non-struct message, 5 struct with a nil embedded message pointer, 6 / 7 request of one of two types that print as "twin.Req" (different packages, key at different positions)
 	NoIC  bool `json:"noic,omitempty"`         // pick: context without the interceptor value
 	DlMs  int  `json:"dlms,omitempty"`         // pick: deadline in ms (0 = none)
 	Late  int  `json:"lateDeadline,omitempty"` // pick: 1 the context reports a deadline equal to now, 2 one in the past, and is not done (a context's timer may run late; custom contexts)
